@@ -8,7 +8,22 @@ claim("C08", "static analysis: equality/hash/order class-hierarchy lint (ast)",
 claim("C13", "static analysis: one-shot iterable dataflow + memo purity + registry/sibling-template checks (ast)",
       "Static decision of container/history/order independence (one-shot discipline with callee summaries, pure process-wide memo tables, commutative combinators) and of necessary conditions for the 'all ten types' / 'all four shapes' tests (table exhaustiveness, sibling agreement with their names, mask constant, odd quarter turn). Does NOT decide that each structural test recognises its class.",
       "Value-level correctness of the type tests is not claimed.", "DESIGN.md §3 C13")
-for pid in ["C02", "C03", "C04", "C05", "C06", "C07", "C09", "C11", "C12", "C14", "C16", "C17", "C18", "C19", "C20"]:
+claim("C02", "static analysis: alias/effect analysis of the shared level cache + skeleton comparison (ast)",
+      "Static decision of the 'histories' half: published levels keep their key set, the level list is monotone (compaction = key-preserving copy), per-instance state is fresh, the identity map is touched only by construction/clear_cache, lookup-or-insert is complete, and count/of_length/in/enumeration/up_to_length/first/is_subclass are fixed aggregates of the level reached through the ensure step. Does NOT decide that a level equals the set of avoiders.",
+      "One known finding (Av._all early exit for mesh bases) is listed in known_findings.jsonl.", "DESIGN.md §3 C02")
+claim("C05", "static analysis: structural check of the sort-then-prune constructor + one-shot dataflow + eq/order lint (ast)",
+      "Static decision that pruning only ever sees the canonically sorted list of all inputs (order/repetition independence), that mixtures of mesh-type patterns are sortable, that one-shot iterables are accepted, that equal bases map to one class object and that text parsing standardises tokens. Does NOT decide minimality/fixed point of the greedy pruning.",
+      "Minimality is documented as undecidable here (MeshPatt sort key is not a linear extension of containment).", "DESIGN.md §3 C05")
+claim("C07", "static analysis: lock-discipline / lock-held-on-entry fixpoint / dominance of unlocked reads (ast)",
+      "Lock discipline decided for every schedule: all writes to the shared level cache (and its aliases) under the one class lock, lock bound once, no re-entry, unlocked reads dominated by a locked ensure of the same index, published levels key-stable and list monotone. Shows 'same result as when run alone', not that the result is right.",
+      "Relative to GIL atomicity of single list/dict operations.", "DESIGN.md §3 C07")
+claim("C11", "static analysis: skeleton comparison of count/list pairs and tools, reviewed label->method table, one-shot dataflow (ast)",
+      "Static decision that each derived counting form is the size of the listing of the same concept, that the statistics table binds every known label to the method of that concept, that the preservation/transformation/equidistribution tools implement their defining identities, and that comprehension-defined statistics state their mathematical definition. Does NOT decide loop/recursion-computed statistics.",
+      "Two known findings (LIS/LDS labels bound to longest-run functions; pinned by the README doctest).", "DESIGN.md §3 C11")
+claim("C19", "static analysis: skeleton comparison + registry exhaustiveness over the class hierarchy + one-shot dataflow (ast)",
+      "Static decision that core strategies are tried on every symmetry, that the core test is 'needed patterns excluded And all other elements valid extensions', that every concrete strategy is registered exactly once and quick = slow minus the slow strategies, that the basis is normalised to a frozenset and accepted as a one-shot iterable. Does NOT decide the shape helpers or the corollaries' pattern sets.",
+      "", "DESIGN.md §3 C19")
+for pid in ["C03", "C04", "C06", "C09", "C12", "C14", "C16", "C17", "C18", "C20"]:
     na(pid, "check under construction in this session (see DESIGN.md §3); will be claimed once its rules are evaluated and self-tested")
 na("C10", "bijectivity, group laws, decomposition/re-assembly are identities between computed values for all arguments; the operations insert/delete/standardise and are not affine in a form the abstract interpreter can extract, so no sound static argument is in reach")
 na("C15", "language equivalence between a constructed NFA and a semantic predicate over infinitely many words; the structural fragments (difference taken from M, database protocol) are evaluated under C16-W2 and C20-D1 and are too marginal to carry a claim for C15")
